@@ -6,6 +6,8 @@
 //   2 class properties, alignment                               (complete types only)
 //   3 construct/assign/destroy/swap operations                  (complete types only)
 //   4 type transformations
+//   0 all of them in one binary (used with the small round-2 core zoo in the quick tier)
+// -DC15_R2_ZOO selects the round-2 zoo (c15_common.hpp); the job names then end in "/zoo2".
 #include "c15_common.hpp"
 
 #ifndef MC_PART
@@ -50,10 +52,10 @@ constexpr bool nothrow_swappable_gap()
     }
 }
 
-#if MC_PART == 1
+#if MC_PART == 1 || MC_PART == 0
 C15_VALUE1(is_void, true, false)
 C15_VALUE1(is_null_pointer, true, false)
-C15_VALUE1(is_integral, true, false)
+C15_VALUE1(is_integral, !int128_quirk<T>, false)
 C15_VALUE1(is_floating_point, true, false)
 C15_VALUE1(is_array, true, false)
 C15_VALUE1(is_enum, true, false)
@@ -65,19 +67,19 @@ C15_VALUE1(is_lvalue_reference, true, false)
 C15_VALUE1(is_rvalue_reference, true, false)
 C15_VALUE1(is_member_object_pointer, true, false)
 C15_VALUE1(is_member_function_pointer, true, false)
-C15_VALUE1(is_fundamental, true, false)
-C15_VALUE1(is_arithmetic, true, false)
-C15_VALUE1(is_scalar, true, false)
+C15_VALUE1(is_fundamental, !int128_quirk<T>, false)
+C15_VALUE1(is_arithmetic, !int128_quirk<T>, false)
+C15_VALUE1(is_scalar, !int128_quirk<T>, false)
 C15_VALUE1(is_object, true, false)
-C15_VALUE1(is_compound, true, false)
+C15_VALUE1(is_compound, !int128_quirk<T>, false)
 C15_VALUE1(is_reference, true, false)
 C15_VALUE1(is_member_pointer, true, false)
 C15_VALUE1(is_const, true, false)
 C15_VALUE1(is_volatile, true, false)
 C15_VALUE1(is_bounded_array, true, false)
 C15_VALUE1(is_unbounded_array, true, false)
-C15_VALUE1(is_signed, true, false)
-C15_VALUE1(is_unsigned, true, false)
+C15_VALUE1(is_signed, !int128_quirk<T>, false)
+C15_VALUE1(is_unsigned, !int128_quirk<T>, false)
 C15_VALUE1(is_scoped_enum, true, false)
 C15_VALUE1(rank, true, false)
 
@@ -136,12 +138,12 @@ struct extent_V {
 };
 #endif
 
-#if MC_PART == 2
+#if MC_PART == 2 || MC_PART == 0
 C15_VALUE1(is_trivial, complete_ok<T>, false)
 C15_VALUE1(is_trivially_copyable, complete_ok<T>, false)
 C15_VALUE1(is_standard_layout, complete_ok<T>, false)
 C15_VALUE1(has_unique_object_representations, complete_ok<T>, false)
-C15_VALUE1(is_empty, complete_ok<T>, std::is_final_v<T>)
+C15_VALUE1(is_empty, complete_ok<T>, false)
 C15_VALUE1(is_polymorphic, complete_ok<T>, false)
 C15_VALUE1(is_abstract, complete_ok<T>, false)
 C15_VALUE1(is_final, complete_ok<T>, false)
@@ -150,10 +152,10 @@ C15_VALUE1(has_virtual_destructor, complete_ok<T>, false)
 C15_VALUE1(alignment_of, alignof_ok<T>, false)
 #endif
 
-#if MC_PART == 3
+#if MC_PART == 3 || MC_PART == 0
 C15_VALUE1(is_default_constructible, complete_ok<T>, false)
 C15_VALUE1(is_trivially_default_constructible, complete_ok<T>, false)
-C15_VALUE1(is_nothrow_default_constructible, complete_ok<T> && !lwg2116<T>, array_of_indestructible<T>)
+C15_VALUE1(is_nothrow_default_constructible, complete_ok<T> && !lwg2116<T>, false)
 C15_VALUE1(is_copy_constructible, complete_ok<T>, false)
 C15_VALUE1(is_trivially_copy_constructible, complete_ok<T>, false)
 C15_VALUE1(is_nothrow_copy_constructible, complete_ok<T> && !lwg2116<T>, false)
@@ -169,11 +171,11 @@ C15_VALUE1(is_nothrow_move_assignable, complete_ok<T>, false)
 C15_VALUE1(is_destructible, complete_ok<T>, false)
 C15_VALUE1(is_trivially_destructible, complete_ok<T>, false)
 C15_VALUE1(is_nothrow_destructible, complete_ok<T>, false)
-C15_VALUE1(is_swappable, complete_ok<T>, (std::rank_v<std::remove_reference_t<T>> >= 2))
-C15_VALUE1(is_nothrow_swappable, complete_ok<T>, nothrow_swappable_gap<T>())
+C15_VALUE1(is_swappable, complete_ok<T>, false)
+C15_VALUE1(is_nothrow_swappable, complete_ok<T>, false)
 #endif
 
-#if MC_PART == 4
+#if MC_PART == 4 || MC_PART == 0
 C15_TYPE1(remove_cv, true, false)
 C15_TYPE1(remove_const, true, false)
 C15_TYPE1(remove_volatile, true, false)
@@ -185,15 +187,15 @@ C15_TYPE1(add_lvalue_reference, true, false)
 C15_TYPE1(add_rvalue_reference, true, false)
 C15_TYPE1(remove_pointer, true, false)
 C15_TYPE1(add_pointer, true, false)
-C15_TYPE1(make_signed, make_signed_ok<T>, !is_builtin_int_nocv<T>)
-C15_TYPE1(make_unsigned, make_signed_ok<T>, !is_builtin_int_nocv<T>)
+C15_TYPE1(make_signed, make_signed_ok<T>, false)
+C15_TYPE1(make_unsigned, make_signed_ok<T>, false)
 C15_TYPE1(remove_extent, true, false)
 C15_TYPE1(remove_all_extents, true, false)
-C15_TYPE1(decay, true, abominable<T>)
+C15_TYPE1(decay, true, false)
 C15_TYPE1(remove_cvref, true, false)
 C15_TYPE1(underlying_type, complete_ok<T>, false)
 C15_TYPE1(type_identity, true, false)
-C15_TYPE1(common_type, complete_ok<T>, abominable<T>)
+C15_TYPE1(common_type, complete_ok<T>, false)
 C15_TYPE1(common_reference, true, false)
 #endif
 
@@ -204,35 +206,37 @@ int main(int argc, char** argv)
     using namespace c15;
     using cases = wrap1_t<zoo_t>;
     mc::Main m(argc, argv);
-#if MC_PART == 1
-    m.job("unary-primary-categories", {"quick", "thorough"}, [](mc::Reporter& r) {
+#if MC_PART == 1 || MC_PART == 0
+    m.job(C15_JOB("unary-primary-categories"), {"quick", "thorough"}, [](mc::Reporter& r) {
         run_columns<cases, is_void_S, is_void_V, is_null_pointer_S, is_null_pointer_V, is_integral_S, is_integral_V,
             is_floating_point_S, is_floating_point_V, is_array_S, is_array_V, is_enum_S, is_enum_V, is_union_S, is_union_V,
             is_class_S, is_class_V, is_function_S, is_function_V, is_pointer_S, is_pointer_V, is_lvalue_reference_S,
             is_lvalue_reference_V, is_rvalue_reference_S, is_rvalue_reference_V, is_member_object_pointer_S,
             is_member_object_pointer_V, is_member_function_pointer_S, is_member_function_pointer_V>(r);
     });
-    m.job("unary-composite-categories", {"quick", "thorough"}, [](mc::Reporter& r) {
+    m.job(C15_JOB("unary-composite-categories"), {"quick", "thorough"}, [](mc::Reporter& r) {
         run_columns<cases, is_fundamental_S, is_fundamental_V, is_arithmetic_S, is_arithmetic_V, is_scalar_S, is_scalar_V,
             is_object_S, is_object_V, is_compound_S, is_compound_V, is_reference_S, is_reference_V, is_member_pointer_S,
             is_member_pointer_V>(r);
     });
-    m.job("unary-cv-sign-shape", {"quick", "thorough"}, [](mc::Reporter& r) {
+    m.job(C15_JOB("unary-cv-sign-shape"), {"quick", "thorough"}, [](mc::Reporter& r) {
         run_columns<cases, is_const_S, is_const_V, is_volatile_S, is_volatile_V, is_bounded_array_S, is_bounded_array_V,
             is_unbounded_array_S, is_unbounded_array_V, is_signed_S, is_signed_V, is_unsigned_S, is_unsigned_V,
             is_scoped_enum_S, is_scoped_enum_V, rank_S, rank_V, extent_S<0>, extent_V<0>, extent_S<1>, extent_V<1>,
             extent_S<2>, extent_V<2>>(r);
     });
-#elif MC_PART == 2
-    m.job("unary-class-properties", {"quick", "thorough"}, [](mc::Reporter& r) {
+#endif
+#if MC_PART == 2 || MC_PART == 0
+    m.job(C15_JOB("unary-class-properties"), {"quick", "thorough"}, [](mc::Reporter& r) {
         run_columns<cases, is_trivial_S, is_trivial_V, is_trivially_copyable_S, is_trivially_copyable_V,
             is_standard_layout_S, is_standard_layout_V, has_unique_object_representations_S,
             has_unique_object_representations_V, is_empty_S, is_empty_V, is_polymorphic_S, is_polymorphic_V, is_abstract_S,
             is_abstract_V, is_final_S, is_final_V, is_aggregate_S, is_aggregate_V, has_virtual_destructor_S,
             has_virtual_destructor_V, alignment_of_S, alignment_of_V>(r);
     });
-#elif MC_PART == 3
-    m.job("unary-construct", {"quick", "thorough"}, [](mc::Reporter& r) {
+#endif
+#if MC_PART == 3 || MC_PART == 0
+    m.job(C15_JOB("unary-construct"), {"quick", "thorough"}, [](mc::Reporter& r) {
         run_columns<cases, is_default_constructible_S, is_default_constructible_V, is_trivially_default_constructible_S,
             is_trivially_default_constructible_V, is_nothrow_default_constructible_S, is_nothrow_default_constructible_V,
             is_copy_constructible_S, is_copy_constructible_V, is_trivially_copy_constructible_S,
@@ -240,7 +244,7 @@ int main(int argc, char** argv)
             is_move_constructible_S, is_move_constructible_V, is_trivially_move_constructible_S,
             is_trivially_move_constructible_V, is_nothrow_move_constructible_S, is_nothrow_move_constructible_V>(r);
     });
-    m.job("unary-assign-destroy-swap", {"quick", "thorough"}, [](mc::Reporter& r) {
+    m.job(C15_JOB("unary-assign-destroy-swap"), {"quick", "thorough"}, [](mc::Reporter& r) {
         run_columns<cases, is_copy_assignable_S, is_copy_assignable_V, is_trivially_copy_assignable_S,
             is_trivially_copy_assignable_V, is_nothrow_copy_assignable_S, is_nothrow_copy_assignable_V, is_move_assignable_S,
             is_move_assignable_V, is_trivially_move_assignable_S, is_trivially_move_assignable_V,
@@ -248,14 +252,15 @@ int main(int argc, char** argv)
             is_trivially_destructible_S, is_trivially_destructible_V, is_nothrow_destructible_S, is_nothrow_destructible_V,
             is_swappable_S, is_swappable_V, is_nothrow_swappable_S, is_nothrow_swappable_V>(r);
     });
-#elif MC_PART == 4
-    m.job("unary-transform-cv-ref-ptr", {"quick", "thorough"}, [](mc::Reporter& r) {
+#endif
+#if MC_PART == 4 || MC_PART == 0
+    m.job(C15_JOB("unary-transform-cv-ref-ptr"), {"quick", "thorough"}, [](mc::Reporter& r) {
         run_columns<cases, remove_cv_T, remove_cv_A, remove_const_T, remove_const_A, remove_volatile_T, remove_volatile_A,
             add_cv_T, add_cv_A, add_const_T, add_const_A, add_volatile_T, add_volatile_A, remove_reference_T,
             remove_reference_A, add_lvalue_reference_T, add_lvalue_reference_A, add_rvalue_reference_T,
             add_rvalue_reference_A, remove_pointer_T, remove_pointer_A, add_pointer_T, add_pointer_A>(r);
     });
-    m.job("unary-transform-other", {"quick", "thorough"}, [](mc::Reporter& r) {
+    m.job(C15_JOB("unary-transform-other"), {"quick", "thorough"}, [](mc::Reporter& r) {
         run_columns<cases, make_signed_T, make_signed_A, make_unsigned_T, make_unsigned_A, remove_extent_T, remove_extent_A,
             remove_all_extents_T, remove_all_extents_A, decay_T, decay_A, remove_cvref_T, remove_cvref_A, underlying_type_T,
             underlying_type_A, type_identity_T, type_identity_A, common_type_T, common_type_A, common_reference_T,
